@@ -18,10 +18,10 @@ mv $demo /tmp/confirm_demo_$$.rs
 timeout 900 cargo test --offline --workspace --no-fail-fast 2>&1 | grep -E "^test result|FAILED|panicked" >> "$log"; s1=${PIPESTATUS[0]}
 mv /tmp/confirm_demo_$$.rs $demo
 echo "== demo with the change" >> "$log"
-if [ "$demoarg" = "--test seeded_demo" ]; then timeout 900 cargo test --offline $demoarg 2>&1 | tail -15 >> "$log"; d1=${PIPESTATUS[0]}; else timeout 900 cargo run --offline $demoarg 2>&1 | tail -15 >> "$log"; d1=${PIPESTATUS[0]}; fi
+if [ "$demoarg" = "--test seeded_demo" ]; then timeout 900 cargo test --offline --features serde,rayon $demoarg 2>&1 | tail -15 >> "$log"; d1=${PIPESTATUS[0]}; else timeout 900 cargo run --offline --features serde,rayon $demoarg 2>&1 | tail -15 >> "$log"; d1=${PIPESTATUS[0]}; fi
 git apply -R seeded_patch.diff
 echo "== demo without the change" >> "$log"
-if [ "$demoarg" = "--test seeded_demo" ]; then timeout 900 cargo test --offline $demoarg 2>&1 | tail -8 >> "$log"; d0=${PIPESTATUS[0]}; else timeout 900 cargo run --offline $demoarg 2>&1 | tail -8 >> "$log"; d0=${PIPESTATUS[0]}; fi
+if [ "$demoarg" = "--test seeded_demo" ]; then timeout 900 cargo test --offline --features serde,rayon $demoarg 2>&1 | tail -8 >> "$log"; d0=${PIPESTATUS[0]}; else timeout 900 cargo run --offline --features serde,rayon $demoarg 2>&1 | tail -8 >> "$log"; d0=${PIPESTATUS[0]}; fi
 git apply seeded_patch.diff
 cp seeded_patch.diff "$out/patch.diff"; cp $demo "$out/"; cp SEEDED.md "$out/SEEDED.md" 2>/dev/null
 echo "$name: build=$b1/$b2 suite_with_change=$s1 demo_with_change=$d1 demo_without=$d0"
